@@ -601,6 +601,26 @@ pub fn distance_with_low_bits(rng: &mut Rng) -> K32 {
     d
 }
 
+/// a distance whose set bits form a run across the boundary between two 64-bit words (bit 64k-1 and
+/// bit 64k both set), optionally with a few more bits above and below
+pub fn distance_word_run(rng: &mut Rng, k: usize) -> K32 {
+    let mut d = [0u8; 32];
+    let (wa, wb) = (*rng.pick(&[1u64, 3, 20, 63]), *rng.pick(&[1u64, 2, 8, 63]));
+    let a = 64 * k - 1 - rng.below(wa) as usize;
+    let b = (64 * k + rng.below(wb) as usize).min(255);
+    for bit in a..=b {
+        d[31 - bit / 8] |= 1u8 << (bit % 8);
+    }
+    for _ in 0..rng.below(3) {
+        let bit = rng.below(256) as usize;
+        d[31 - bit / 8] |= 1u8 << (bit % 8);
+    }
+    if rng.chance(1, 3) {
+        d[31] |= 1 << rng.below(3);
+    }
+    d
+}
+
 // --------------------------------------------------------------------------------------------
 // Monitors: written from the property text, evaluated on the implementation only.
 
@@ -741,6 +761,73 @@ pub fn check_pending_lifecycle(before: &TDump, after: &TDump, op: &Op, forced: &
                 }
             }
         }
+    }
+    None
+}
+
+/// C07, "a pending node ... is discarded if that node reconnects first": a candidate waits in the
+/// pending slot on the least recently active node of its bucket (the head, disconnected).  When a
+/// status report `Connected` for that head reaches the bucket before the candidate's timeout, the
+/// candidate is discarded by that report: afterwards it is neither in the pending slot nor among
+/// the nodes - also when the head's reconnection itself is refused (the limit on incoming
+/// connections; the head is then dropped from the bucket).  The report does not reach the bucket
+/// when the record carried by the same operation is refused by a record filter first (the head is
+/// then dropped without a status report).
+pub fn check_head_reconnect(before: &TDump, after: &TDump, op: &Op, ret: &Ret, forced: &BTreeSet<usize>, cfg: &CaseCfg) -> Option<String> {
+    let (k, record_refused) = match (op, ret) {
+        (Op::UpdateStatus(k, true, _), _) => (*k, false),
+        (Op::Entry(k, Action::Update(true, _)), Ret::Entry(0)) => (*k, false),
+        (Op::InsertOrUpdate(k, _, true, _), Ret::Ins(s)) => (*k, s == "Failed:TableFilter"),
+        (Op::UpdateNode(k, _, Some(true)), Ret::Upd(s)) => (*k, s == "Failed(TableFilter)" || s == "Failed(BucketFilter)"),
+        _ => return None,
+    };
+    if record_refused || cfg.timeout_zero {
+        return None;
+    }
+    let b = before.buckets.iter().find(|b| b.nodes.first().map(|n| n.key) == Some(k))?;
+    let p = b.pending.as_ref()?;
+    if forced.contains(&b.idx) || b.nodes[0].conn {
+        return None;
+    }
+    let a = after.buckets.iter().find(|a| a.idx == b.idx);
+    let still_pending = a.and_then(|a| a.pending.as_ref()).map(|q| q.key) == Some(p.key);
+    let among_nodes = a.map(|a| a.nodes.iter().any(|n| n.key == p.key)).unwrap_or(false);
+    if still_pending || among_nodes {
+        let head_kept = a.map(|a| a.nodes.iter().any(|n| n.key == k)).unwrap_or(false);
+        return Some(format!(
+            "bucket {}: the node the pending candidate waits on reported Connected before the timeout ({}) but the candidate {}",
+            b.idx,
+            if head_kept { "and stays in the bucket" } else { "its reconnection was refused and it was dropped" },
+            if still_pending { "still waits in the pending slot" } else { "entered the bucket" }
+        ));
+    }
+    None
+}
+
+/// C16, "nodes without an IPv4 address are unaffected": with the /24 filters configured, an
+/// operation that offers a record without an IPv4 address is never refused by the bucket or the
+/// table filter.
+pub fn check_c16_no_ip4(ctx: &Ctx, op: &Op, ret: &Ret) -> Option<String> {
+    let v = match op {
+        Op::InsertOrUpdate(_, v, ..) | Op::UpdateNode(_, v, _) | Op::Entry(_, Action::Insert(v, ..)) => *v,
+        _ => return None,
+    };
+    if ctx.pool[v].sub.is_some() {
+        return None;
+    }
+    let refused = match ret {
+        Ret::Ins(s) => s == "Failed:TableFilter" || s == "Failed:BucketFilter",
+        Ret::Upd(s) => s == "Failed(TableFilter)" || s == "Failed(BucketFilter)",
+        _ => false,
+    };
+    if refused {
+        return Some(format!(
+            "a record without an IPv4 address was refused by the {} filter",
+            match ret {
+                Ret::Ins(s) | Ret::Upd(s) if s.contains("Table") => "table",
+                _ => "bucket",
+            }
+        ));
     }
     None
 }
@@ -1076,7 +1163,13 @@ pub fn gen_case(rng: &mut Rng, pool_len: usize, focus: &str, nops: usize) -> Gen
         timeout_zero = false;
     }
     // scripted opening around a pending candidate whose timeout elapses mid-sequence (see below)
-    let scripted_due = !scripted_incoming && !scripted_c16 && rng.chance(if focus == "rec" { 3 } else { 1 }, if focus == "c16" { 2 } else { 4 });
+    let (due_num, due_den) = match focus {
+        "rec" => (3, 4),
+        "c16" => (1, 2),
+        "c08" => (2, 5),
+        _ => (1, 4),
+    };
+    let scripted_due = !scripted_incoming && !scripted_c16 && rng.chance(due_num, due_den);
     if scripted_due {
         timeout_zero = false;
     }
@@ -1099,6 +1192,18 @@ pub fn gen_case(rng: &mut Rng, pool_len: usize, focus: &str, nops: usize) -> Gen
     }
     if focus == "c08" && !bucket_choice.contains(&0) && rng.chance(3, 4) {
         bucket_choice[0] = 0;
+    }
+    // a bucket at (or next to) a 64-bit word boundary of the distance: the bucket visiting order is
+    // computed from the words of distance(local, target)
+    let mut word_b: Option<usize> = None;
+    if focus == "c08" && !wide && rng.chance(2, 5) {
+        let k = rng.range(1, 3) as usize;
+        let i = 64 * k + *rng.pick(&[0usize, 0, 0, 0, 1]) - *rng.pick(&[0usize, 0, 0, 0, 1]);
+        if !bucket_choice.contains(&i) {
+            let at = bucket_choice.len() - 1;
+            bucket_choice[at] = i;
+        }
+        word_b = Some(k);
     }
     // at least one bucket that can fill up
     if !bucket_choice.iter().any(|i| *i >= 5) {
@@ -1244,8 +1349,13 @@ pub fn gen_case(rng: &mut Rng, pool_len: usize, focus: &str, nops: usize) -> Gen
         // connected incoming candidate becomes pending; then the bucket reaches the limit by a status
         // report (or the candidate's own status changes) and the candidate's timeout elapses
         let lim = max_incoming;
+        // variants 3.. : the bucket reaches the limit and then the node the candidate waits on (the
+        // head) reports Connected as an incoming peer - its reconnection is refused, the candidate is
+        // discarded all the same
+        let variant = rng.below(6);
+        let head_inc = variant >= 3 && rng.chance(1, 2);
         for i in 0..16 {
-            let (conn, inc) = if i < 3 { (false, i == 1) } else if i < 3 + lim - 1 { (true, true) } else { (rng.chance(1, 2), false) };
+            let (conn, inc) = if i < 3 { (false, i == 1 || (i == 0 && head_inc)) } else if i < 3 + lim - 1 { (true, true) } else { (rng.chance(1, 2), false) };
             let v = pick_val(rng, slot_of(focus_b, i));
             ops.push(Op::InsertOrUpdate(keys[focus_b][i], v, conn, inc));
         }
@@ -1257,12 +1367,25 @@ pub fn gen_case(rng: &mut Rng, pool_len: usize, focus: &str, nops: usize) -> Gen
             let v2 = pick_val(rng, slot_of(focus_b, 17));
             ops.push(Op::InsertOrUpdate(keys[focus_b][17], v2, true, false));
         }
-        match rng.below(3) {
+        match variant {
             0 => ops.push(Op::UpdateStatus(keys[focus_b][1 + rng.below(2) as usize], true, Some(true))),
             1 => ops.push(Op::Entry(keys[focus_b][16], Action::PendingUpdate(true, true))),
-            _ => {
+            2 => {
                 ops.push(Op::UpdateStatus(keys[focus_b][2], true, Some(true)));
                 ops.push(Op::UpdateStatus(keys[focus_b][16], true, Some(true)));
+            }
+            _ => {
+                ops.push(Op::UpdateStatus(keys[focus_b][2], true, Some(true)));
+                let d = if head_inc && rng.chance(1, 2) { None } else { Some(true) };
+                let k0 = keys[focus_b][0];
+                ops.push(match rng.below(4) {
+                    0 => Op::Entry(k0, Action::Update(true, d)),
+                    1 => {
+                        let v = pick_val(rng, slot_of(focus_b, 0));
+                        Op::InsertOrUpdate(k0, v, true, true)
+                    }
+                    _ => Op::UpdateStatus(k0, true, d),
+                });
             }
         }
         ops.push(Op::ForceReady(bucket_choice[focus_b]));
@@ -1323,7 +1446,7 @@ pub fn gen_case(rng: &mut Rng, pool_len: usize, focus: &str, nops: usize) -> Gen
         let cand_inc = n_inc + 1 < max_incoming && rng.chance(1, 3);
         ops.push(Op::InsertOrUpdate(keys[fb][16], val(16, vars[16]), true, cand_inc));
         // the eviction candidates stay (0), leave and are replaced by connected nodes (1), or leave (2)
-        let leave = rng.weighted(&[3, 2, 1]);
+        let leave = rng.weighted(if focus == "c08" { &[2, 2, 3] } else { &[3, 2, 1] });
         let mut next_new = 17usize;
         if leave > 0 {
             for i in 0..nd {
@@ -1345,6 +1468,22 @@ pub fn gen_case(rng: &mut Rng, pool_len: usize, focus: &str, nops: usize) -> Gen
         if rng.chance(1, 3) {
             ops.push(Op::UpdateStatus(keys[fb][16], false, None));
         }
+        // while the candidate waits: an operation for an id X of this bucket that is neither stored
+        // nor pending, with a record of X (a lookup that answers with the pending slot whatever the
+        // id would hand the candidate's slot to X)
+        if rng.chance(if focus == "rec" { 3 } else { 1 }, 6) {
+            let x = keys[fb][19];
+            let xv = val(19, vars[19]);
+            ops.push(match rng.below(5) {
+                0 | 1 => Op::UpdateNode(x, xv, *rng.pick(&[None, Some(true), Some(false)])),
+                2 => Op::InsertOrUpdate(x, xv, rng.chance(1, 2), rng.chance(1, 3)),
+                3 => Op::Entry(x, Action::Update(rng.chance(1, 2), None)),
+                _ => Op::Entry(x, Action::PendingUpdate(rng.chance(1, 2), rng.chance(1, 2))),
+            });
+            if rng.chance(1, 2) {
+                ops.push(Op::UpdateNode(x, xv, None));
+            }
+        }
         // the timeout elapses
         if rng.chance(5, 6) {
             ops.push(Op::ForceReady(bidx));
@@ -1365,10 +1504,11 @@ pub fn gen_case(rng: &mut Rng, pool_len: usize, focus: &str, nops: usize) -> Gen
         };
         let cw: u64 = if due_crowd { 1 } else { 0 };
         let kind = rng.weighted(&match focus {
-            "c08" => [1, 1, 1, 1, 1, 1, 8, 6, 1, 1, 2 * cw],
+            "c08" => [1, 1, 1, 1, 1, 1, 12, 6, 1, 1, 2 * cw, cw, cw, 1],
             // record-carrying operations
-            "rec" => [6, 2, 3, 1, 1, 1, 1, 1, 1, 1, 6 * cw],
-            _ => [2, 1, 1, 1, 1, 1, 1, 1, 1, 1, 4 * cw],
+            "rec" => [6, 2, 3, 1, 1, 1, 1, 1, 1, 1, 6 * cw, 3 * cw, 3 * cw, 3],
+            "c16" => [2, 1, 1, 1, 1, 1, 1, 1, 1, 1, 4 * cw, 5 * cw, 5 * cw, 1],
+            _ => [2, 1, 1, 1, 1, 1, 1, 1, 1, 1, 4 * cw, 2 * cw, 2 * cw, 1],
         });
         let probe = match kind {
             0 => {
@@ -1400,13 +1540,20 @@ pub fn gen_case(rng: &mut Rng, pool_len: usize, focus: &str, nops: usize) -> Gen
                 if rng.chance(1, 6) {
                     ds.push(0);
                 }
-                Op::NodesByDistances(ds, *rng.pick(&[1usize, 3, 16, 16, 16, 20, 40]))
+                Op::NodesByDistances(ds, *rng.pick(&[1usize, 3, 16, 16, 16, 17, 20, 40, 40]))
             }
             7 => Op::Closest(if rng.chance(1, 2) { keys[fb][m] } else { local }),
             8 => Op::Remove(keys[fb][m]),
             9 => Op::UpdateStatus(keys[fb][0], true, None),
             // a newer record moves a member into the crowded /24
-            _ => Op::UpdateNode(keys[fb][m], val(m, if rng.chance(1, 3) { 4 } else { 0 }), ost(rng)),
+            10 => Op::UpdateNode(keys[fb][m], val(m, if rng.chance(1, 3) { 4 } else { 0 }), ost(rng)),
+            // a new node of the crowded /24 arrives (what the bucket looked like before the due
+            // candidate was applied says nothing about whether the table filter must be asked)
+            11 => Op::InsertOrUpdate(keys[fb][19], val(19, if rng.chance(1, 3) { 4 } else { 0 }), true, rng.chance(1, 4)),
+            // the due candidate itself is offered again with a record of the crowded /24
+            12 => Op::InsertOrUpdate(keys[fb][16], val(16, if rng.chance(1, 3) { 4 } else { 0 }), true, rng.chance(1, 4)),
+            // an id that is neither stored nor pending, with its record
+            _ => Op::UpdateNode(keys[fb][19], val(19, vars[19]), ost(rng)),
         };
         ops.push(probe);
         if rng.chance(1, 2) {
@@ -1491,6 +1638,7 @@ pub fn gen_case(rng: &mut Rng, pool_len: usize, focus: &str, nops: usize) -> Gen
             }
             8 => {
                 let t = match rng.below(5) {
+                    _ if word_b.is_some() && rng.chance(1, 4) => xor(&local, &distance_word_run(rng, word_b.unwrap())),
                     0 => local,
                     1 => pick_key(rng).0,
                     2 => {
@@ -1626,7 +1774,23 @@ pub fn run_case(ctx: &Ctx, id: u64, g: &GenCase, hist: &mut Hist) -> CaseResult 
         if let Some(m) = check_departures(&before, &after, op) {
             failures.push(("C07".into(), m, i));
         }
-        for m in [check_keyed(&g.owner, &after), check_record_frame(ctx, &before, &after, op)].into_iter().flatten() {
+        if let Some(m) = check_head_reconnect(&before, &after, op, &ret, &forced, &g.cfg) {
+            failures.push(("C07".into(), m, i));
+        }
+        if g.cfg.filters {
+            if let Some(m) = check_c16_no_ip4(ctx, op, &ret) {
+                failures.push(("C16".into(), m, i));
+            }
+        }
+        // C01: the record handed out for a who-are-you query about X is X's; C12: a record replaces a
+        // stored one only if it is for the same id; C02: a handshake claiming id P is verified against
+        // the record stored under P - if that is the record of another node X, X's handshake passes
+        // as P's and X's requests are delivered as coming from P
+        let keyed = check_keyed(&g.owner, &after);
+        if let Some(m) = &keyed {
+            failures.push(("C02".into(), m.clone(), i));
+        }
+        for m in [keyed, check_record_frame(ctx, &before, &after, op)].into_iter().flatten() {
             failures.push(("C01".into(), m.clone(), i));
             failures.push(("C12".into(), m, i));
         }
@@ -1802,7 +1966,7 @@ pub fn main(args: &[String]) {
     }
     w.flush();
     sum.case_files = w.files.clone();
-    sum.rule = "operation sequences over a real KBucketsTable<NodeId, Enr>: 2-6 buckets in play chosen with extra weight on indices 0-7 and 250-255, up to 20 candidate ids per bucket, records of 256 key slots in 5 versions from few /24 subnets plus records without IPv4; scripted openings (incoming limit and pending slot; /24 limits and pending slot; a pending candidate whose timeout elapses mid-sequence after its eviction candidates stayed, left or were replaced, followed by one operation of each kind, optionally with one /24 at the table limit); every nodes_by_distances step is also put to Discv5::nodes_by_distance on a Discv5 owning a copy of the table; a case is non-trivial if some bucket held nodes of mixed status or a pending slot, and distinct if the hash of its result/occupancy trace is new in this run".into();
+    sum.rule = "operation sequences over a real KBucketsTable<NodeId, Enr>: 2-6 buckets in play chosen with extra weight on indices 0-7 and 250-255, up to 20 candidate ids per bucket, records of 256 key slots in 5 versions from few /24 subnets plus records without IPv4; scripted openings (incoming limit and pending slot; /24 limits and pending slot; a pending candidate whose timeout elapses mid-sequence after its eviction candidates stayed, left or were replaced, followed by one operation of each kind, optionally with one /24 at the table limit and then a new node or the due candidate itself offered with a record of that /24; operations for an id of the bucket that is neither stored nor pending while a candidate waits; the head of a bucket at its incoming limit reporting Connected as an incoming peer while a candidate waits on it); for c08 buckets at the 64-bit word boundaries of the distance and targets whose distance has a run of set bits across such a boundary; every nodes_by_distances step is also put to Discv5::nodes_by_distance on a Discv5 owning a copy of the table; a case is non-trivial if some bucket held nodes of mixed status or a pending slot, and distinct if the hash of its result/occupancy trace is new in this run".into();
     sum.write(&o.out);
     println!(
         "kb: {} cases, {} steps, {} distinct non-trivial, {} monitor failure signatures",
